@@ -82,6 +82,10 @@ func genStreamParams(tp *simrt.Tape, seed uint64, tier, focus string) streamPara
 	if tp.Chance(1, 3) {
 		sp.LateTop = 2 + tp.Draw(20)
 	}
+	if focus == "C04" && tp.Chance(1, 5) {
+		sp.JumpAt = 3 + tp.Draw(sp.Frames-3)
+		sp.JumpBy = 8193 + tp.Draw(24000)
+	}
 	return sp
 }
 
@@ -422,6 +426,11 @@ func runMedia(focus string, checks ...string) func(c *Ctx, plan any) {
 		w := newMediaWorld(c, p)
 		for _, k := range checks {
 			w.check[k] = true
+		}
+		if p.Stream.JumpAt > 0 {
+			// a jump beyond the re-synchronisation window
+			w.check = map[string]bool{"C04": true}
+			c.Count("fault.seqno_jump", 1)
 		}
 		if !w.setup() {
 			return
